@@ -165,9 +165,14 @@ def built_string_parts(body, op):
     for (a, _), (c, _) in zip(apps, apps[1:]):
         if not body.dominates(a, c):
             return None
-    if body.loops() and any(bb in body.loop_body(h, tl) for (bb, _) in apps for h, tl in body.loops().items()):
-        return None
     d = wd[0]
+    for h, tl in (body.loops() or {}).items():
+        lb_ = body.loop_body(h, tl)
+        inside = [bb for (bb, _) in apps if bb in lb_]
+        # appends inside a loop are an assembly only if the string is created afresh in the same iteration (its definition is in that loop too
+        # and dominates every append) — otherwise the string is carried around the back edge and grows with every iteration
+        if inside and not (d[0] in lb_ and all(body.dominates(d[0], bb) for bb in inside) and len(inside) == len(apps)):
+            return None
     if d[2] == "call":
         first = E("call", callee_name(d[3]), tuple(body.expr_operand(a) for a in d[3]["args"]), d[0], t=d[3])
     elif d[2] == "assign":
@@ -186,6 +191,40 @@ def built_string_parts(body, op):
         else:
             parts.append(("val", strip_refs_keep(v)))
     return parts
+
+
+def inplace_wraps(body):
+    """`x.insert_str(0, PRE); x.push_str(POST)` on one String local x with nothing else done to x in between:
+    [(local, PRE E, POST E, insert block, push block)] — the in-place spelling of `x = PRE ++ x ++ POST`."""
+    refs = {}
+    for (i, j, st) in body.stmts():
+        if st["k"] == "assign" and not st["place"]["p"] and st["rv"]["k"] == "ref" and st["rv"].get("mut") and not st["rv"]["place"]["p"] \
+                and body.locals[st["rv"]["place"]["l"]]["ty"] == "std::string::String":
+            refs[st["place"]["l"]] = st["rv"]["place"]["l"]
+    ins, app, other = {}, {}, {}
+    for (bb, t) in body.calls():
+        if not t["args"] or t["args"][0]["k"] == "const" or t["args"][0]["place"]["p"] or t["args"][0]["place"]["l"] not in refs:
+            continue
+        l = refs[t["args"][0]["place"]["l"]]
+        n = callee_name(t)
+        if n.endswith("String::insert_str") and is_const(strip_refs(body.expr_operand(t["args"][1])), "int") and const_val(strip_refs(body.expr_operand(t["args"][1]))) == 0:
+            ins.setdefault(l, []).append((bb, t))
+        elif n.endswith("String::push_str"):
+            app.setdefault(l, []).append((bb, t))
+        else:
+            other.setdefault(l, []).append(bb)
+    out = []
+    for l, xs in ins.items():
+        for (ibb, it) in xs:
+            for (abb, at) in app.get(l, []):
+                if not body.dominates(ibb, abb):
+                    continue
+                between = [bb for bb in other.get(l, []) + [b_ for (b_, _) in app.get(l, []) if b_ != abb] + [b_ for (b_, _) in xs if b_ != ibb]
+                           if body.dominates(ibb, bb) and abb in body.reachable_from(bb) and bb != abb]
+                if between:
+                    continue
+                out.append((l, body.expr_operand(it["args"][2]), body.expr_operand(at["args"][1]), ibb, abb))
+    return out
 
 
 def filtered_chars_loop(body, l):
